@@ -70,8 +70,12 @@ func init() {
 				if s.DelayClass == "big" || s.DelayClass == "mid" {
 					s.DelayClass = "tiny" // window-crossing delays would only blur the grace-period oracle
 				}
-				if k.H(sd, "faults", 0)%3 == 0 {
+				switch k.H(sd, "faults", 0) % 4 {
+				case 0:
 					s.Faults = "conn.latency,conn.chunk"
+				case 1:
+					// connections reset while the shutdown request is under way
+					s.Faults = "conn.rst,conn.chunk"
 				}
 				return s
 			})...)
@@ -82,13 +86,14 @@ func init() {
 }
 
 type c04Plugin struct {
-	conf   h.Conf
-	beh    string
-	cl     *plugin.Client
-	name   string
-	marker string
-	reqAt  time.Duration  // when the shutdown was requested (Kill issued)
-	a      *plugin.Client // original client when reattached
+	aliveAtReq bool
+	conf       h.Conf
+	beh        string
+	cl         *plugin.Client
+	name       string
+	marker     string
+	reqAt      time.Duration  // when the shutdown was requested (Kill issued)
+	a          *plugin.Client // original client when reattached
 }
 
 func runC04(r *h.Run) {
@@ -179,7 +184,9 @@ func runC04(r *h.Run) {
 				Logger:           r.Logger("hostB"), Reattach: rc, Managed: pat == "cleanup-clients",
 			})
 			if o := r.DoNoHang("StartB["+p.name+"]", 60*time.Second, ctx, func() (any, error) { return p.cl.Start() }); o.Err != nil || o.Hung {
-				r.Violate("setup", "reattach failed "+ctx, fmt.Sprint(o.Err))
+				if !o.Hung && w.FaultCount("conn.rst") == 0 {
+					r.Violate("setup", "reattach failed "+ctx, fmt.Sprint(o.Err))
+				}
 				return
 			}
 		}
@@ -192,11 +199,18 @@ func runC04(r *h.Run) {
 				}
 				return cp.Dispense(h.PluginName)
 			})
-			if o.Err != nil || o.Hung {
-				r.Violate("setup", "connect failed "+ctx, fmt.Sprint(o.Err))
+			if o.Hung {
 				return
 			}
-			cmd = o.Val.(plugins.Cmd)
+			if o.Err != nil && w.FaultCount("conn.rst") > 0 {
+				// the connection was reset while connecting: Kill is judged all the same
+				w.Probe("setup.connect-reset")
+			} else if o.Err != nil {
+				r.Violate("setup", "connect failed "+ctx, fmt.Sprint(o.Err))
+				return
+			} else {
+				cmd = o.Val.(plugins.Cmd)
+			}
 		}
 		proc := w.ProcByName(p.name)
 		switch p.beh {
@@ -224,6 +238,9 @@ func runC04(r *h.Run) {
 	t0 := w.Now()
 	for _, p := range ps {
 		p.reqAt = t0
+		if proc := w.ProcByName(p.name); proc != nil {
+			p.aliveAtReq = proc.Alive()
+		}
 	}
 	var outs []h.Outcome
 	switch pat {
@@ -304,7 +321,7 @@ func runC04(r *h.Run) {
 		if pat == "race-client" {
 			graceful = false // a racing Client() legitimately disturbs the graceful path
 		}
-		if graceful && injected < 200*time.Millisecond && w.FaultCount("conn.latency") == 0 {
+		if graceful && injected < 200*time.Millisecond && w.FaultCount("conn.latency") == 0 && w.FaultCount("conn.rst") == 0 {
 			w.Probe("graceful.expected")
 			if proc.GotKill {
 				r.Violate("killed-despite-graceful-exit", pctx, fmt.Sprintf("the plugin exits by itself within 500ms of the shutdown request but received SIGKILL (exited at %v, request at %v)", proc.ExitedAt, p.reqAt))
@@ -313,7 +330,10 @@ func runC04(r *h.Run) {
 				r.Violate("cleanup-cut-short", pctx, "the plugin's cleanup marker was not written")
 			}
 		}
-		if p.beh == "ignore" || p.beh == "stopped" {
+		if (p.beh == "ignore" || p.beh == "stopped") && !p.aliveAtReq {
+			// (a connection reset during set-up made the plugin give up by itself)
+			w.Probe("forcekill.moot-plugin-already-gone")
+		} else if p.beh == "ignore" || p.beh == "stopped" {
 			w.Probe("forcekill.expected")
 			if !proc.GotKill {
 				r.Violate("not-force-killed", pctx, "plugin never exits by itself but received no SIGKILL")
